@@ -15,7 +15,9 @@ EXPLANATION = (
     "binding is reached only on paths that established 'overwrite allowed' or 'key absent'; S2 an automatically "
     "generated key (key is None) passes, after its last assignment, a test that establishes 'key absent' — whatever "
     "allow_overwrite is; S3 the binding is written only after (dominated by) the fallible operation it records, and "
-    "no destructive effect precedes it; S4 keys()/retrieve()/describe() read the single binding. "
+    "no destructive effect precedes it; S4 keys()/retrieve()/describe() read the single binding; S5 every normal path from a "
+    "database table write (insert_table / create_table) to a return passes through an unconditional assignment of the "
+    "binding entry (directly or through model_table), so a replaced table never keeps its old description. "
     "Not decided: equivalence with a reference map over arbitrary histories."
 )
 
@@ -179,6 +181,67 @@ def _helper_summary(cls, hname: str, binding: str) -> Optional[Set[str]]:
     return summary or set()
 
 
+
+def _normal_reach(g, start: int, avoid: Set[int]) -> Set[int]:
+    """nodes reachable from start over non-exception edges without passing through `avoid`"""
+    seen: Set[int] = set()
+    todo = [s_ for (s_, lab) in g.nodes[start].succ if lab != "exc"]
+    while todo:
+        x = todo.pop()
+        if x in seen or x in avoid:
+            continue
+        seen.add(x)
+        todo.extend(s_ for (s_, lab) in g.nodes[x].succ if lab != "exc")
+    return seen
+
+
+def _store_helper_unconditional(cls, hname: str, binding: str) -> bool:
+    """the helper (model_table) assigns self.<binding>[...] on every normal path to a return"""
+    hm = cls.find_method(hname) if cls is not None else None
+    if hm is None:
+        return False
+    hg = cfgmod.build(hm.node)
+    stores = {hg.node_of(st).id for st in ast.walk(hm.node) if isinstance(st, ast.Assign) and any(
+        isinstance(t, ast.Subscript) and unparse(t.value) == f"self.{binding}" for t in st.targets)}
+    if not stores:
+        return False
+    rets = {n.id for n in hg.returns()} | {hg.exit}
+    reach = _normal_reach(hg, hg.entry, stores | {n.id for n in hg.raises()})
+    return not (reach & rets)
+
+
+def _check_recorded(res, cname, m, binding, cls, g, effects):
+    tw = [(st, dsc) for (st, k, dsc) in effects if k == "table-write"]
+    if not tw:
+        return
+    store_ids: Set[int] = set()
+    for (st, k, dsc) in effects:
+        if k != "store":
+            continue
+        if isinstance(st, ast.Assign) and any(isinstance(t, ast.Subscript) and unparse(t.value) == f"self.{binding}" for t in st.targets):
+            store_ids.add(g.node_of(st).id)
+        elif isinstance(getattr(st, "value", None), ast.Call) and isinstance(st.value.func, ast.Attribute) and unparse(st.value.func.value) == "self":
+            if _store_helper_unconditional(cls, st.value.func.attr, binding):
+                store_ids.add(g.node_of(st).id)
+    soft = [c for c in ast.walk(m.node) if isinstance(c, ast.Call) and isinstance(c.func, ast.Attribute)
+            and c.func.attr in ("setdefault",) and unparse(c.func.value) == f"self.{binding}"]
+    rets = {n.id for n in g.returns()} | {g.exit}
+    for (st, dsc) in tw:
+        w = g.node_of(st).id
+        if w in store_ids:
+            res.ok("C20-S5", f"{cname}.{m.name}: {dsc} and the binding are written by one statement")
+            continue
+        leak = _normal_reach(g, w, store_ids | {n.id for n in g.raises()}) & rets
+        if leak:
+            how = (f"; `{unparse(soft[0])[:60]}` keeps the old entry when the key is present" if soft else "")
+            res.fail_at("C20-S5", m, f"table-write-unrecorded:{dsc}",
+                        f"{cname}.{m.name}: after `{unparse(st)[:60]}` replaced the table, a return is reached without an unconditional "
+                        f"`self.{binding}[key] = ...`{how}: describe(key) and the returned description keep the columns of the table that was replaced, "
+                        f"while retrieve(key) reads the new one", soft[0] if soft else st)
+        else:
+            res.ok("C20-S5", f"{cname}.{m.name}: every normal path from {dsc} to a return replaces self.{binding}[key]")
+
+
 def _check_writer(res, cname, m, binding, cls=None):
     g = cfgmod.build(m.node)
     key = "key"
@@ -242,6 +305,8 @@ def _check_writer(res, cname, m, binding, cls=None):
                         f"after its last assignment: an auto-named entry can replace an existing one", st)
         else:
             res.ok("C20-S2", f"{inst}: auto-generated keys are tested for freshness on every path")
+    # ---- S5 a table write is recorded: every normal path from a table write to a return replaces the binding entry
+    _check_recorded(res, cname, m, binding, cls, g, effects)
     # ---- S3 store after success
     fallible = [n for n in g.stmt_nodes(("stmt", "return")) if any(
         isinstance(c, ast.Call) and isinstance(c.func, ast.Attribute) and (c.func.attr in ("eval", "insert_table", "create_table")
@@ -317,6 +382,7 @@ def run(program, res, tier):
     res.rule("C20-S2", "auto-generated keys are tested for freshness after their last assignment")
     res.rule("C20-S3", "binding written only after the fallible operation succeeded; nothing destroyed before it")
     res.rule("C20-S4", "keys/retrieve/describe read the single binding")
+    res.rule("C20-S5", "a table write is recorded: the binding entry is replaced unconditionally before the writer returns")
     _s3_insert_table_helper(program, res)
     for (mod, cname, binding) in SPACES:
         cls = program.cls(mod, cname)
